@@ -8,6 +8,9 @@
 // Memory everywhere is pre-filled with pat(seed, model_address); results report only the bytes that
 // differ from the pattern afterwards (address, hex run), so writes outside the buffers show up.
 #![allow(clippy::all)]
+use fuse_backend_rs::abi::fuse_abi::stat64;
+use fuse_backend_rs::api::filesystem::{Context, DirEntry, FileSystem, GetxattrReply, ListxattrReply, ZeroCopyWriter};
+use fuse_backend_rs::api::server::Server;
 use fuse_backend_rs::file_buf::FileVolatileSlice;
 use fuse_backend_rs::file_traits::FileReadWriteVolatile;
 use fuse_backend_rs::transport::{Error as TError, FuseBuf, FuseDevWriter, Reader, VirtioFsWriter, Writer};
@@ -433,6 +436,155 @@ fn virtio_case(line: &str) -> String {
     format!("{{\"init\":{},\"obs\":[{}],\"mem\":[{}],\"dirty\":[{}]}}", init, out.join(","), diffs.join(","), dirty.join(","))
 }
 
+// ---- whole requests through Server::handle_message on the virtio transport (C17) ---------------------
+// A file system whose replies carry payloads of a chosen size: read (zero copy from a memfd), readdir,
+// getxattr, listxattr, readlink, getattr.  Everything else answers ENOSYS (a 16-byte error reply).
+struct PayloadFs {
+    payload: Vec<u8>,
+}
+impl FileSystem for PayloadFs {
+    type Inode = u64;
+    type Handle = u64;
+    fn getattr(&self, _ctx: &Context, _inode: u64, _handle: Option<u64>) -> io::Result<(stat64, std::time::Duration)> {
+        let mut st: stat64 = unsafe { std::mem::zeroed() };
+        st.st_ino = 7;
+        st.st_size = self.payload.len() as i64;
+        st.st_mode = 0o100644;
+        Ok((st, std::time::Duration::from_secs(1)))
+    }
+    fn readlink(&self, _ctx: &Context, _inode: u64) -> io::Result<Vec<u8>> {
+        Ok(self.payload.clone())
+    }
+    fn read(&self, _ctx: &Context, _inode: u64, _handle: u64, w: &mut dyn ZeroCopyWriter, size: u32, offset: u64, _lock_owner: Option<u64>, _flags: u32) -> io::Result<usize> {
+        let mut f = memfd(&self.payload);
+        w.write_from(&mut f, size as usize, offset)
+    }
+    fn readdir(&self, _ctx: &Context, _inode: u64, _handle: u64, _size: u32, offset: u64, add_entry: &mut dyn FnMut(DirEntry) -> io::Result<usize>) -> io::Result<()> {
+        // one entry per 3 payload bytes, names of growing length
+        let n = self.payload.len() / 3;
+        let mut i = offset as usize;
+        while i < n {
+            let name: Vec<u8> = (0..(1 + i % 11)).map(|k| b'a' + ((i + k) % 26) as u8).collect();
+            let r = add_entry(DirEntry { ino: 100 + i as u64, offset: (i + 1) as u64, type_: libc::DT_REG as u32, name: &name })?;
+            if r == 0 {
+                break;
+            }
+            i += 1;
+        }
+        Ok(())
+    }
+    fn getxattr(&self, _ctx: &Context, _inode: u64, _name: &std::ffi::CStr, size: u32) -> io::Result<GetxattrReply> {
+        if size == 0 {
+            Ok(GetxattrReply::Count(self.payload.len() as u32))
+        } else {
+            Ok(GetxattrReply::Value(self.payload.clone()))
+        }
+    }
+    fn listxattr(&self, _ctx: &Context, _inode: u64, size: u32) -> io::Result<ListxattrReply> {
+        if size == 0 {
+            Ok(ListxattrReply::Count(self.payload.len() as u32))
+        } else {
+            Ok(ListxattrReply::Names(self.payload.clone()))
+        }
+    }
+}
+
+fn server_case(line: &str) -> String {
+    let seed = num(kv(line, "seed"));
+    let regions: Vec<(u64, u64)> = kv(line, "regions")
+        .split(',')
+        .map(|r| {
+            let p: Vec<&str> = r.split(':').collect();
+            (num(p[0]), num(p[1]))
+        })
+        .collect();
+    let qaddr = num(kv(line, "queue"));
+    let ranges: Vec<(GuestAddress, usize)> = regions.iter().map(|(b, z)| (GuestAddress(*b), *z as usize)).collect();
+    let mem: GM = GuestMemoryMmap::from_ranges(&ranges).unwrap();
+    for (b, z) in regions.iter().skip(1) {
+        let v: Vec<u8> = (0..*z).map(|o| pat(seed, b + o)).collect();
+        mem.write_slice(&v, GuestAddress(*b)).unwrap();
+    }
+    let req = unhex(kv(line, "req"));
+    let payload = unhex(kv(line, "payload"));
+    let mut descs: Vec<RawDescriptor> = Vec::new();
+    let mut wflat: Vec<u64> = Vec::new();
+    let mut pos = 0usize;
+    for d in kv(line, "descs").split(',').filter(|s| !s.is_empty()) {
+        let p: Vec<&str> = d.split(':').collect();
+        let (a, l) = (num(p[0]), num(p[1]));
+        let flags: u16 = if p[2] == "w" { 2 } else { 0 };
+        if p[2] == "w" {
+            wflat.extend((0..l).map(|i| a + i));
+        } else {
+            // the request bytes go into the readable descriptors, in order
+            let take = std::cmp::min(l as usize, req.len() - pos);
+            mem.write_slice(&req[pos..pos + take], GuestAddress(a)).unwrap();
+            pos += take;
+        }
+        descs.push(RawDescriptor::from(SplitDescriptor::new(a, l as u32, flags, 0)));
+    }
+    let vq = MockSplitQueue::create(&mem, GuestAddress(qaddr), 16);
+    let chain = vq.build_desc_chain(&descs).expect("build_desc_chain");
+    // snapshot + clean bitmap: everything from here on is the server's doing
+    let mut snap: Vec<Vec<u8>> = Vec::new();
+    for (b, z) in regions.iter() {
+        let mut v = vec![0u8; *z as usize];
+        mem.read_slice(&mut v, GuestAddress(*b)).unwrap();
+        snap.push(v);
+    }
+    for r in mem.iter() {
+        let mr: &vm_memory::MmapRegion<AtomicBitmap> = std::ops::Deref::deref(r);
+        mr.bitmap().reset();
+    }
+    let server = Server::new(PayloadFs { payload });
+    let res = {
+        let reader = <Reader>::from_descriptor_chain(&mem, chain.clone()).expect("reader");
+        let writer = <VirtioFsWriter>::new(&mem, chain.clone()).expect("writer");
+        match catch_unwind(AssertUnwindSafe(|| server.handle_message(reader, Writer::VirtioFs(writer), None, None))) {
+            Ok(Ok(n)) => format!("[\"ok\",{}]", n),
+            Ok(Err(e)) => format!("[\"err\",\"{}\"]", format!("{}", e).replace('"', "'")),
+            Err(_) => "[\"panic\"]".to_string(),
+        }
+    };
+    let mut diffs: Vec<String> = Vec::new();
+    let mut dirty: Vec<String> = Vec::new();
+    for (ri, (b, z)) in regions.iter().enumerate() {
+        if ri == 0 {
+            continue;
+        }
+        let mut v = vec![0u8; *z as usize];
+        mem.read_slice(&mut v, GuestAddress(*b)).unwrap();
+        let mut o = 0usize;
+        while o < v.len() {
+            if v[o] != snap[ri][o] {
+                let s = o;
+                while o < v.len() && v[o] != snap[ri][o] {
+                    o += 1;
+                }
+                diffs.push(format!("[{},\"{}\"]", b + s as u64, hex(&v[s..o])));
+            } else {
+                o += 1;
+            }
+        }
+        let reg = mem.find_region(GuestAddress(*b)).unwrap();
+        let mut off = 0u64;
+        while off < *z {
+            if reg.bitmap().dirty_at(off as usize) {
+                dirty.push(format!("{}", (b + off) / 4096));
+            }
+            off += 4096;
+        }
+    }
+    let mut head = vec![0u8; std::cmp::min(16, wflat.len())];
+    for (i, a) in wflat.iter().take(16).enumerate() {
+        let mut one = [0u8; 1];
+        mem.read_slice(&mut one, GuestAddress(*a)).unwrap();
+        head[i] = one[0];
+    }
+    format!("{{\"res\":{},\"mem\":[{}],\"dirty\":[{}],\"head\":\"{}\"}}", res, diffs.join(","), dirty.join(","), hex(&head))
+}
+
 // ---- fusedev ---------------------------------------------------------------------------------------
 const FBASE: u64 = 0x10000; // model address of the arena start (16-aligned); buffer starts 64 bytes later
 const MARGIN: usize = 64;
@@ -706,6 +858,7 @@ fn main() {
             "virtio" => virtio_case(line),
             "fusedev" => fusedev_case(line),
             "bytes" => bytes_case(line),
+            "server" => server_case(line),
             k => panic!("subcommand {}", k),
         }));
         match r {
